@@ -3,13 +3,14 @@ import json
 import subprocess
 import sys
 
-from . import adjacency, search, scc, serde
+from . import adjacency, search, scc, serde, container
 
 REGISTRY = {}
 REGISTRY.update(adjacency.CHECKS)
 REGISTRY.update(search.CHECKS)
 REGISTRY.update(scc.CHECKS)
 REGISTRY.update(serde.CHECKS)
+REGISTRY.update(container.CHECKS)
 
 
 def replay(pid, path):
